@@ -318,6 +318,7 @@ TYPES = [
     collections.abc.Hashable, collections.abc.Mapping,
     _meta_type(TypeError), _meta_type(ValueError), _meta_type(HostileBase),
     3, "int", int | str, (int, (str, float)), EqRaises, LenIs, (int, 3), type, BaseException,
+    None,
 ]
 
 _P1 = re.compile("b+")
